@@ -33,7 +33,7 @@ prop("C24", "exploration",
      _b(2000, 60, 100000, 1200))
 prop("C07", "exploration",
      "each run draws a DAG, selector and a link budget N from {1,2,3,needed-1,needed,needed+1,needed+10} set globally, per request by hook, or both, on the requestor or the responder; needed = link loads of an independent reference traversal; distinct = distinct trace hash",
-     _b(2000, 60, 100000, 1200))
+     _b(2000, 60, 100000, 1200), probes=["c07-responder-lacks-blocks", "c07-budget-runs-out-after-a-missing-block"])
 prop("C03", "exploration",
      "one real responder and a scripted requestor speaking through the real codec; each run draws DAG, responder store (blocks missing at random, occasionally the root), 1-2 requests with selectors and do-not-send-first-blocks (0,1,2,len-1,len,len+3), do-not-send-cids and dedup-by-key combinations; wire output reassembled per request and compared with the reference traversal over the responder store; distinct = distinct trace hash",
      _b(2000, 60, 100000, 1200))
@@ -61,7 +61,7 @@ prop("C20", "exploration",
 
 prop("C22", "fault_enumeration",
      "two real nodes, two concurrent requests over disjoint DAGs; one panic injected per run, enumerated over function in {storage read, storage commit, prototype chooser, node reifier, codec decode} x side in {requestor, responder} x call index 1..6 of that function for the victim request; a crash of the worker process is attributed to the run; the sibling must deliver exactly the reference traversal, the victim must end with an error and the panic callback must have received the value; distinct = distinct trace hash",
-     _b(800, 90, 30000, 1200), crash_is_violation=True,
+     _b(800, 90, 30000, 1200), crash_is_violation=True, probes=["c22-panic-after-cancel"],
      technique="deterministic simulation with enumerated panic injection; process-crash attribution by the parent")
 
 prop("C21", "exploration",
@@ -127,7 +127,7 @@ _EXT = {
  "C05": "same additions as C04; a response reported failed on the network must not later complete successfully",
  "C23": "same additions as C04",
  "C06": "runs with a responder that lacks 30% of the blocks; empty and codec-alias leaves",
- "C07": "a second request after the first with a per-request budget of its own",
+ "C07": "a second request after the first with a per-request budget of its own; 35% of responder-side runs on a responder that lacks blocks (every link tried is charged and is one metadata entry, found or not)",
  "C08": "specs wrapped in up to 150 further clauses of one kind or in rotation",
  "C09": "a second victim request; intruder messages naming r1, r2 and an unknown ID in any combination; the response data handed to each block hook must be one the genuine responder sent",
  "C10": "the other peer may come first and may be refused by a request hook; a single-worker responder kept busy by an earlier request; a coherent stale-task variant; nothing may run for a retired request of the other peer while the first peer holds the ID; a paused response stays paused",
@@ -140,9 +140,9 @@ _EXT = {
  "C19": "responses may also be ended with FinishWithError and may be paused; the tracker's tables are read (lengths, by reflection) whenever a request stops being tracked or is paused",
  "C20": "one sibling may be cancelled or paused for good by its caller; a named deduplication scope with a store of its own (persistence option) that most requests of a run may use, optionally with do-not-send-cids for what that store holds; every commit is checked against the block its CID names; a loss is classified by whether a sibling that had been sent the block was still in progress at the responder",
  "C21": "a guarded yield between a worker's pop and StartTask; responder-side pause at a block and operator resume",
- "C22": "40% of runs build the node whose code panics without a PanicCallback option; ending without an error is accepted only for a requestor-side read, and then every loaded block must be stored",
+ "C22": "40% of runs build the node whose code panics without a PanicCallback option; ending without an error is accepted only for a requestor-side read, and then every loaded block must be stored; half of the reifier runs use a reifier that asks the traversal for a further block before it panics, and in 70% of those the victim is cancelled (caller context, Cancel API, responder's operator) while the block before is fetched, so that the panic follows the cancel; a responder-side panic after the last block was sent counts as reported when the response's last status on the wire is a failure",
  "C24": "the request may live in a named scope that a second, unrelated request joins at a drawn step; empty and codec-alias leaves",
- "C25": "the responder's operator may cancel the stalled peer's response once or twice; any handler the actor loop is stuck in counts as loop-blocked",
+ "C25": "the responder's operator may cancel the stalled peer's response once or twice; any handler the actor loop is stuck in counts as loop-blocked; a run that never settles because a node goroutine waits for a lock is classified from the goroutine dump (DESIGN 13.7) and reported as CRASH lockwait",
 }
 for _p, _t in _EXT.items():
     META[_p]["rule"] += " | added later: " + _t
